@@ -1,5 +1,10 @@
 package ref
 
+import (
+	"strings"
+	"unicode"
+)
+
 const b32Alpha = "ABCDEFGHIJKLMNOPQRSTUVWXYZ234567"
 
 // B32Encode is RFC 4648 base32 without padding, written bit-wise.
@@ -52,6 +57,16 @@ func isASCIISpace(c byte) bool {
 // B32Classify decides what decoding `text` must do.  Leading/trailing ASCII white space
 // is insignificant; letters are case-insensitive in ASCII only.
 func B32Classify(text string) (v B32Verdict, bytes []byte) {
+	// Unicode white space other than ASCII (NEL, NBSP, U+2028 ...) at the ends: the property speaks of
+	// "white space" and lists space, tab, newline; whether such a character is stripped or rejected is
+	// deliberately not decided - but if the text is accepted, it must decode as the stripped text does.
+	if t2 := strings.TrimFunc(text, unicode.IsSpace); t2 != strings.TrimFunc(text, func(r rune) bool { return r < 0x80 && isASCIISpace(byte(r)) }) {
+		v2, b2 := B32Classify(t2)
+		if v2 == MustReject {
+			return MustReject, nil
+		}
+		return DontCare, b2
+	}
 	s := text
 	for len(s) > 0 && isASCIISpace(s[0]) {
 		s = s[1:]
